@@ -194,9 +194,27 @@ class Folder:
                 if v:
                     break
             return r
+        if isinstance(e, ast.Compare) and len(e.ops) > 1:
+            left = e.left
+            for op, right in zip(e.ops, e.comparators):
+                if not self.eval(ast.Compare(left=left, ops=[op], comparators=[right])):
+                    return False
+                left = right
+            return True
         if isinstance(e, ast.Compare) and len(e.ops) == 1:
             a, b = self.eval(e.left), self.eval(e.comparators[0])
             op = e.ops[0]
+            try:
+                if isinstance(op, ast.Lt):
+                    return a < b
+                if isinstance(op, ast.LtE):
+                    return a <= b
+                if isinstance(op, ast.Gt):
+                    return a > b
+                if isinstance(op, ast.GtE):
+                    return a >= b
+            except TypeError as ex:
+                raise Unfoldable(e, str(ex))
             if isinstance(op, ast.Eq):
                 return a == b
             if isinstance(op, ast.NotEq):
